@@ -295,6 +295,25 @@ pub fn spec(id: &str) -> Option<Spec> {
             worker_timeout_s: |t| t.pick(1500, 5 * 3600),
             rayon_threads: 16,
         },
+        "C05" => Spec {
+            id: "C05",
+            level: "exploration",
+            rule: "Configuration lattice (quick 7, thorough 20 points): optimizations disabled; enabled x inlining \
+                   {Default, Avoid, InlineSmallFunctions(0|1|20|200|5000)} x skip_const_folding x numeric-match threshold \
+                   {unset,1,2,1000} x {linear, legacy} metadata solvers. (a) Every function `test::*` of every e2e / \
+                   examples snippet is compiled under every configuration and run on inputs generated from the Sierra \
+                   types; results decoded by Sierra type (value) or panic data are compared with the optimizations- \
+                   disabled baseline; out-of-gas on one side only is inconclusive. (b) The whole corelib test suite is \
+                   compiled and run under 3 (thorough: all linear) configurations and every test's verdict and panic \
+                   data compared. Hook H2 reports which optimization phases changed the IR (counters hook.*). \
+                   Non-trivial = distinct (snippet, function, argument vector) / (corelib test, configuration) compared.",
+            floor: |t| t.pick(2000, 20_000),
+            shards: |_| 1,
+            crash_is_violation: false,
+            assumptions: &["values containing dictionaries or builtins are not compared by content (counted as not comparable)"],
+            worker_timeout_s: |t| t.pick(1800, 6 * 3600),
+            rayon_threads: 16,
+        },
         _ => return None,
     })
 }
@@ -313,6 +332,7 @@ pub fn worker(id: &str, ctx: &mut Ctx) {
         "C10" => crate::frontend::c10_worker(ctx),
         "C02" | "C04" | "C17" => crate::execchecks::exec_worker(ctx, id),
         "C14" | "C15" => crate::sierra_mut::sierra_worker(ctx, id),
+        "C05" => crate::metamorph::c05_worker(ctx),
         "C06" => crate::opmatrix::c06_worker(ctx),
         "C11" => crate::fmtchecks::c11_worker(ctx),
         "C12" => crate::dbscen::c12_worker(ctx),
@@ -332,6 +352,7 @@ pub fn replay(id: &str, case: &Value) -> Result<Option<String>, String> {
         "C10" => crate::frontend::c10_replay(case),
         "C02" | "C04" | "C17" => crate::execchecks::exec_replay(id, case),
         "C14" | "C15" => crate::sierra_mut::sierra_replay(id, case),
+        "C05" => crate::metamorph::c05_replay(case),
         "C06" => crate::opmatrix::c06_replay(case),
         "C11" => crate::fmtchecks::c11_replay(case),
         "C12" => crate::dbscen::c12_replay(case),
